@@ -825,15 +825,13 @@ func allTypes() []*typeDesc {
 			x := p.(*file.Meta)
 			return pMeta{x.MediaType, x.Name, tmOf(x.Date), x.Size, projHashOut(x.Hash), x.Width, x.Height, x.Length}
 		},
-		oracle: func(v interface{}, o *orTab) { o.tfmt(lZoneNano, v.(*file.Meta).Date) },
+		norm:   func(p interface{}) interface{} { m := p.(pMeta); m.Date = utcNorm(m.Date); return m },
+		oracle: func(v interface{}, o *orTab) { o.tfmt(lUTCNano, v.(*file.Meta).Date) },
 		timeOK: func(v interface{}) bool { return timeInRange(v.(*file.Meta).Date) },
 		trigger: func(v interface{}, field string) string {
 			m := v.(*file.Meta)
 			if field == "error" && m.Hash.Hash != 0 && len(m.Hash.Out) == 0 {
 				return "empty-hash-output"
-			}
-			if _, off := m.Date.Zone(); field == "Date" && off%60 != 0 {
-				return "zone-offset-seconds"
 			}
 			return ""
 		},
